@@ -2,8 +2,11 @@ module verif/harness
 
 go 1.18
 
+require github.com/vimeo/dials v0.0.0
+
 require (
-	github.com/vimeo/dials v0.0.0
+	github.com/fatih/structtag v1.2.0 // indirect
+	golang.org/x/text v0.19.0 // indirect
 )
 
 replace github.com/vimeo/dials => /repo
